@@ -42,10 +42,10 @@ Proof. reflexivity. Qed.
 
 Lemma step_kind : forall p h o p' o', step p h o = Some (p', o') -> is_identity p' = is_identity p.
 Proof.
-  intros [st|st|cfg| |] h o p' o' H; simpl in H.
+  intros [st|st| | |] h o p' o' H; simpl in H.
   - destruct (sh_step st h o) as [[st' o1]|]; inversion H; reflexivity.
   - destruct (ex_step st h o) as [[st' o1]|]; inversion H; reflexivity.
-  - destruct (fr_step cfg h o); inversion H; reflexivity.
+  - destruct (fr_step h o); inversion H; reflexivity.
   - inversion H; reflexivity.
   - inversion H; reflexivity.
 Qed.
@@ -522,23 +522,20 @@ Proof.
   intros acc z Hz. apply Hf. right; exact Hz.
 Qed.
 
-Definition fr_from (cfg : fr_cfg) (i : imp) : string :=
-  if fr_strip_dots cfg then lstrip_dots (i_module i) else src_of (i_level i) (i_module i).
-
-Lemma fr_imported_lookup : forall cfg imports n from,
-  lookup n (fr_imported cfg imports) = Some from ->
-  exists i, In i imports /\ In n (i_names i) /\ local_import i = true /\ from = fr_from cfg i.
+Lemma fr_imported_lookup : forall imports n from,
+  lookup n (fr_imported imports) = Some from ->
+  exists i, In i imports /\ In n (i_names i) /\ local_import i = true /\ from = lstrip_dots (i_module i).
 Proof.
-  intros cfg imports n from. unfold fr_imported.
+  intros imports n from. unfold fr_imported.
   apply (fold_left_inv _ _ (fun acc => lookup n acc = Some from ->
-           exists i, In i imports /\ In n (i_names i) /\ local_import i = true /\ from = fr_from cfg i)).
+           exists i, In i imports /\ In n (i_names i) /\ local_import i = true /\ from = lstrip_dots (i_module i))).
   - discriminate.
   - intros acc i Hi Hacc.
     destruct (negb (Nat.eqb (i_level i) 1) && negb (starts_with_dot (i_module i)))%bool eqn:El; [exact Hacc|].
     assert (Hloc : local_import i = true).
     { unfold local_import. destruct (Nat.eqb (i_level i) 1); destruct (starts_with_dot (i_module i)); simpl in *; congruence. }
     apply (fold_left_inv _ _ (fun acc2 => lookup n acc2 = Some from ->
-           exists i0, In i0 imports /\ In n (i_names i0) /\ local_import i0 = true /\ from = fr_from cfg i0)).
+           exists i0, In i0 imports /\ In n (i_names i0) /\ local_import i0 = true /\ from = lstrip_dots (i_module i0))).
     + exact Hacc.
     + intros acc2 k Hk Hacc2 Hl. rewrite lookup_dict_set in Hl.
       destruct (String.eqb n k) eqn:E; [|apply Hacc2; exact Hl].
@@ -549,28 +546,26 @@ Qed.
 Lemma lstrip_no_dot : forall s, starts_with_dot s = false -> lstrip_dots s = s.
 Proof. intros [|c r] H; [reflexivity|]. simpl in *. destruct c as [[] [] [] [] [] [] [] []]; try reflexivity; discriminate. Qed.
 
-(* the repaired plugin: the import it defers names the module the unplugged client imported the name from *)
-Theorem forward_refs_sources_fixed : forall imports n from,
-  lookup n (fr_imported fr_fixed imports) = Some from ->
+(* the import the plugin defers names the module the unplugged client imported the name from: a level-1 import
+   of module m is re-emitted as (level 1, m) *)
+Theorem forward_refs_sources : forall imports n from,
+  lookup n (fr_imported imports) = Some from ->
   exists i, In i imports /\ In n (i_names i) /\
             (i_level i = 1 -> starts_with_dot (i_module i) = false -> src_of 1 from = src_of (i_level i) (i_module i)).
 Proof.
-  intros imports n from H. destruct (fr_imported_lookup _ _ _ _ H) as [i [Hi [Hn [_ Hf]]]].
-  exists i. repeat split; auto. intros Hl Hd. subst from. unfold fr_from; simpl.
+  intros imports n from H. destruct (fr_imported_lookup _ _ _ H) as [i [Hi [Hn [_ Hf]]]].
+  exists i. repeat split; auto. intros Hl Hd. subst from.
   rewrite Hl, (lstrip_no_dot _ Hd). reflexivity.
 Qed.
 
-Lemma string_app_length : forall a b, String.length (a ++ b)%string = String.length a + String.length b.
-Proof. induction a as [|c r IH]; intros b; simpl; [reflexivity|]. rewrite IH. reflexivity. Qed.
-
-(* the code as found: EVERY deferred import of a level-1 import points somewhere else (one dot too many) *)
-Theorem forward_refs_sources_refuted : forall imports n from,
-  lookup n (fr_imported fr_current imports) = Some from ->
+(* ... and also for the level-0 form `from .m import X` that ShorterResults inserts *)
+Theorem forward_refs_sources_dotted : forall imports n from,
+  lookup n (fr_imported imports) = Some from ->
   exists i, In i imports /\ In n (i_names i) /\
-            (i_level i = 1 -> src_of 1 from <> src_of (i_level i) (i_module i)).
+            (forall m, i_level i = 0 -> i_module i = ("." ++ m)%string -> starts_with_dot m = false ->
+                       src_of 1 from = src_of (i_level i) (i_module i)).
 Proof.
-  intros imports n from H. destruct (fr_imported_lookup _ _ _ _ H) as [i [Hi [Hn [_ Hf]]]].
-  exists i. repeat split; auto. intros Hl Heq. subst from. unfold fr_from in Heq; simpl in Heq.
-  rewrite Hl in Heq. apply (f_equal String.length) in Heq. unfold src_of in Heq.
-  rewrite !string_app_length in Heq. simpl in Heq. lia.
+  intros imports n from H. destruct (fr_imported_lookup _ _ _ H) as [i [Hi [Hn [_ Hf]]]].
+  exists i. repeat split; auto. intros m Hl Hm Hd. subst from. rewrite Hl, Hm. simpl.
+  rewrite (lstrip_no_dot _ Hd). reflexivity.
 Qed.
